@@ -211,4 +211,6 @@ def main(tier):
     rep.attempt(_gfinit, rep, 'word64')
     rep.attempt(_gfinit, rep, 'bytewise')
     rep.attempt(check_log_zero, rep)
+    import c16
+    rep.attempt(c16.check_tablefmt, rep)      # "the 32-byte table expansion of every constant" is what the selected consumers read only if builder and consumer are selected together
     return rep.finish()
